@@ -408,6 +408,51 @@ pub fn run(ctx: &Ctx, rep: &Report) {
         rep.part(name, part_total, json!({"symbols": syms.len(), "max_len": maxlen, "windows_ms": windows, "stamps_ms": stamps, "base_s": var.base_s, "multi_metadata": var.multi}));
         bound.push(format!("{name}: length <= {maxlen} over {} symbols x {} windows", syms.len(), windows.len()));
     }
+    // long histories: every pattern of one or two arrivals (frame, receiver, offset within the period) repeated
+    // 8 / 40 / 257 times with a period of 100 / 450 / 1000 ms (many receptions per group, many groups, counters)
+    {
+        let psyms = symbols(&[0, 1, 3], &[0, 1], &[0, 50]);
+        let mut pats: Vec<Vec<Arr>> = Vec::new();
+        for a in &psyms {
+            pats.push(vec![*a]);
+            for b in &psyms {
+                pats.push(vec![*a, *b]);
+                if ctx.thorough() {
+                    for c in &psyms {
+                        pats.push(vec![*a, *b, *c]);
+                    }
+                }
+            }
+        }
+        let cnt = AtomicU64::new(0);
+        let grp = AtomicU64::new(0);
+        par_items(ctx.threads, pats.len(), |i| {
+            let mut oc = [0u64; 8];
+            for times in [8usize, 40, 257] {
+                for period in [100u64, 450, 1000] {
+                    let mut hist: Vec<Arr> = Vec::with_capacity(times * pats[i].len());
+                    for r in 0..times {
+                        for a in &pats[i] {
+                            hist.push(Arr { frame: a.frame, rx: a.rx, ms: a.ms + r as u64 * period });
+                        }
+                    }
+                    // keep the arrival order of the pattern; stamps may step back by 50 ms inside a period
+                    for w in [250u32, 450] {
+                        for var in [plain, multi] {
+                            check_one(&al, &hist, w, var, rep, &agree, &disagree, &mut oc);
+                            cnt.fetch_add(1, Ordering::Relaxed);
+                            grp.fetch_add(1, Ordering::Relaxed);
+                        }
+                    }
+                }
+            }
+        });
+        let c = cnt.load(Ordering::Relaxed);
+        total += c;
+        nontriv += grp.load(Ordering::Relaxed);
+        rep.part("periodic long histories (patterns repeated up to 257 times)", c, json!({"patterns": pats.len(), "longest": 257 * if ctx.thorough() { 3 } else { 2 }}));
+        bound.push(format!("periodic: {} patterns x 3 repeat counts x 3 periods x 2 windows x 2 variants", pats.len()));
+    }
     rep.sample(hist_json(&[Arr { frame: 0, rx: 0, ms: 0 }, Arr { frame: 0, rx: 1, ms: 250 }, Arr { frame: 1, rx: 0, ms: 450 }, Arr { frame: 0, rx: 0, ms: 500 }], 450, multi));
     rep.sample(json!({"emitted_for_sample": run_real(&al, &[Arr { frame: 0, rx: 0, ms: 0 }, Arr { frame: 0, rx: 1, ms: 250 }, Arr { frame: 1, rx: 0, ms: 450 }, Arr { frame: 0, rx: 0, ms: 500 }], 450, multi).map(|v| v.iter().map(|r| json!({"after_arrival": r.step, "timestamp_ms": r.ts_ms, "receptions": r.ids})).collect::<Vec<_>>()).unwrap_or_default()}));
     let oc = outcomes.lock().unwrap();
